@@ -221,6 +221,8 @@ def _c20_min(m, tier):
     c = m["counts"]
     if c.get("control_leaky_inline_reported", 0) < 18 or c.get("control_leaky_heap_reported", 0) < 18:
         return "Leaky / LeakyVec controls were not reported in every suite and profile"
+    if c.get("control_consumed_block_reported", 0) < 18:
+        return "consumed-block control was not reported in every suite and profile"
     if c.get("control_blind", 0) > 0:
         return f"forget-control did not see the secret in {c['control_blind']} probes (monitor blind)"
     if c.get("conservation_missing_blocks", 0) > 0:
